@@ -66,7 +66,7 @@ pub const CHECKS: &[CheckDef] = &[
     CheckDef { id: "C18", sim: "table", sim_id: 18, quick_runs: 400000, thorough_runs: 10000000, level: "exploration", rule: "one run = one seeded history of 10..400 put/get/clear/len operations on a HashTable<ZobristHash,u64> of capacity 1..16 over a key universe of 2..40 keys (dense or spread over 64 bits; re-insertion of present and of evicted keys is the norm; every written value unique), compared after EVERY operation with a reference insertion-ordered FIFO map: every live key reads its value, every evicted/cleared key reads nothing, len <= capacity, load_factor = len/capacity; non-trivial = >= 5 operations; distinct = distinct hash of the key sequence", assumptions: &["reference FIFO map (a vector) is correct", "no schedule exists: the table is owned by the search thread alone; the simulated dimension is the operation history; the cache-size knob inside real searches is exercised by the EngineSim checks (TT capacity 1..1024, hashfull <= 1000 enforced by the output grammar, C08 exactness independent of capacity)"], real: &["inkayaku_engine_core::engine::table::HashTable<ZobristHash, u64> through the cfg-gated TableHandle"], stubbed: &["nothing"], exit_on_violation: false },
     CheckDef { id: "C15", sim: "line", sim_id: 15, quick_runs: 30000, thorough_runs: 600000, level: "exploration", rule: "7 of 8 runs (LineSim): 300..600 command lines per run - grammar-generated with random spacing / parameter order / subsets, token- and byte-mutated (flip, drop, duplicate, swap, truncate, oversized numbers, bad move tokens, upper case, non-ASCII, duplicated go parameter), or arbitrary bytes - fed through the real ConsoleUciRx::start reader loop, each parse result compared with a reference parser (Exactly / MustErr / Unspecified), plus a 2048-triple slice of the 64x64x6 move-text space checked for display-parse round trip; 1 of 8 runs (EngineSim): a whole engine session whose lines travel through the same seam, so a panic kills the reader thread as in production and a misread shows by its effect; non-trivial = >= 10 lines; distinct = distinct hash of (line, parse result) sequence", assumptions: &["reference UCI parser sim/src/uciref.rs is correct (written from the UCI text and the behaviours pinned by the existing parser tests)", "separators are blanks only; tabs and grey-area syntax (signs, leading zeros, upper-case promotion letters) are classified Unspecified and only required not to panic and not to turn into a different command"], real: &["inkayaku_uci::console::ConsoleUciRx::start / read_next_command", "inkayaku_uci::parser::CommandParser", "inkayaku_uci::UciMove FromStr/Display", "inkayaku_core Square::from_chars, Fen::from_str"], stubbed: &["stdin (read closure)", "the engine behind on_command (LineSim runs); real engine in the EngineSim share"], exit_on_violation: true },
     CheckDef { id: "C08", sim: "engine_exact", sim_id: 8, quick_runs: 10000, thorough_runs: 200000, level: "exploration", rule: "one run = one session of 2..9 cycles `position ...; go depth d` (d = 1..3, or 2N-1 on a position with a reference-proven mate in N) on ONE engine instance with randomised knobs (TT capacity down to 1, poll interval, node cost); after every cycle the reported score must equal the exact minimax value computed by the reference alpha-beta search (no TT/killers/PV reuse) with the engine's own static evaluation at the leaves, and the announced move must attain it; distinct = distinct event-log hash", assumptions: ENGINE_ASSUME, real: ENGINE_REAL, stubbed: ENGINE_STUB, exit_on_violation: true },
-    CheckDef { id: "C09", sim: "engine_interrupt", sim_id: 9, quick_runs: 96, thorough_runs: 2400, level: "fault_enumeration", rule: "one run = one plan (position, go depth d, poll interval 512): a dry run yields the poll node counts p1<..<pn (every node count at which the abort flag can be observed); the plan is then executed once per p_i (all of them up to 400, evenly thinned above) and per interrupt kind (stop, quit, simulated-clock movetime expiry), each followed by go depth 1 WITHOUT position, two more interrupted searches and go depth 1 again; evaluations = interrupted sessions executed; distinct = distinct (plan, interruption point, kind) event-log hashes", assumptions: ENGINE_ASSUME, real: ENGINE_REAL, stubbed: ENGINE_STUB, exit_on_violation: true },
+    CheckDef { id: "C09", sim: "engine_interrupt", sim_id: 9, quick_runs: 768, thorough_runs: 19200, level: "fault_enumeration", rule: "1 of 8 runs = one enumeration plan (position, go depth d, poll interval 512): a dry run yields the poll node counts p1<..<pn (every node count at which the abort flag can be observed); the plan is then executed once per p_i (all of them up to 400, evenly thinned above) and per interrupt kind (stop, quit, simulated-clock movetime expiry), each followed by go depth 1 WITHOUT position, two more interrupted searches and go depth 1 again; evaluations = interrupted sessions executed; distinct = distinct (plan, interruption point, kind) event-log hashes; the other 7 of 8 runs are generic fault-injecting engine sessions (stop/quit/clock expiry at seeded polls, stop queued before go, position command arriving during search, noise) judged by the same read-back of the search thread's board at every idle point", assumptions: ENGINE_ASSUME, real: ENGINE_REAL, stubbed: ENGINE_STUB, exit_on_violation: true },
     CheckDef { id: "C01", sim: "board", sim_id: 1, quick_runs: 60000, thorough_runs: 1500000, level: "exploration", rule: BOARD_RULE, assumptions: BOARD_ASSUME, real: BOARD_REAL, stubbed: BOARD_STUB, exit_on_violation: false },
     CheckDef { id: "C02", sim: "board", sim_id: 2, quick_runs: 60000, thorough_runs: 1500000, level: "exploration", rule: BOARD_RULE, assumptions: BOARD_ASSUME, real: BOARD_REAL, stubbed: BOARD_STUB, exit_on_violation: false },
     CheckDef { id: "C03", sim: "board", sim_id: 3, quick_runs: 60000, thorough_runs: 1500000, level: "exploration", rule: BOARD_RULE, assumptions: BOARD_ASSUME, real: BOARD_REAL, stubbed: BOARD_STUB, exit_on_violation: false },
@@ -147,6 +147,9 @@ pub fn gen_plan(def: &CheckDef, ctx: &Ctx, seed: u64, thorough: bool) -> Plan {
         "stream" => Plan::Stream(streamsim::gen_plan(seed, thorough, &ctx.pool)),
         "table" => Plan::Table(tablesim::gen_table_plan(seed, thorough)),
         "engine_exact" => Plan::Engine(enginesim::gen_plan_exact(seed, thorough, &ctx.pool, &ctx.mates)),
+        // 1 of 8 runs is an enumeration plan (heavy: hundreds of sessions), the others are generic
+        // fault-injecting sessions judged by the same position read-back oracle
+        "engine_interrupt" if seed % 8 != 0 => Plan::Engine(enginesim::gen_plan("C09", seed, thorough, &ctx.pool)),
         "engine_interrupt" => Plan::Engine(enginesim::gen_plan_interrupt(seed, thorough, &ctx.pool)),
         other => panic!("unknown simulator {}", other),
     }
